@@ -52,6 +52,15 @@ CHECKS = {
              '(33+32m, m<=128) and the hand-over of the leaf hash into execution are checked through spend sessions.',
         note='Trusts vf/ref/secp.py + vf/ref/verify.py (validated against the real-chain taproot pairs and BIP340 vector 0).',
         design='5/C05'),
+    'C06': dict(
+        technique='property-based testing of the real tap / btcdeb binaries against independent BIP341 / BIP350 implementations: exhaustive (n, index) grid + Hypothesis-generated script lists, round trip through --sig',
+        text='For every (n, index) with n <= 16 (quick) / n <= 64 (thorough) and for random n up to 1024, random script contents (distinct, equal, signature- and argument-consuming, large) and '
+             'address prefixes, the unmodified tap binary is run: the printed address must bech32m-decode to (prefix, version 1, 32-byte Q) and be identical with and without a selected leaf; '
+             'the emitted witness must end with scripts[index] and a control block that verifies under the reference BIP341 code against Q with Q = P + H_TapTweak(P||root)G and the stated parity; '
+             'the logged sighash (ptys) must equal the reference BIP341/BIP342 digest of the printed transaction; a reference signature passed back with --sig must give a transaction that the '
+             'reference VerifyScript and the real btcdeb accept (script path and key path).',
+        note='Single-input spending transactions (tap derives the digest from one spent output). Leaf scripts consume the signature tap always places as deepest witness item.',
+        design='5/C06'),
     'C07': dict(
         technique='grammar-based property-based testing (Hypothesis) against an executable token->bytes model, plus exhaustive enumeration of all 1- and 2-byte hex literals',
         text='Token sequences drawn from the documented btcc grammar (names with/without OP_, OP_xNN, int64 decimals, hex literals of every length class, brackets to depth 8 with '
